@@ -8,23 +8,25 @@ ENC_FD = ["FrameDecoder::{new,reset,decode_blocks,read,collect,collect_to_writer
           "DecodeBuffer::{reset,extend_and_fill,extend_from_reader,read,read_all,drain,drain_to,drain_to_window_size,drain_to_writer,can_drain_to_window_size}",
           "RingBuffer::* (real allocation, growth and wrap-around with concrete sizes)"]
 ASSUME = ["built with std, without hash (checksum not computed; C08 covers hashing)",
-          "source is harness type ArrSrc (array + index copy), a legal `impl Read`"]
+          "source is harness type ArrSrc (array + index copy), a legal `impl Read`",
+          "truncation instances: once ArrSrc has reported UnexpectedEof, a further read on it within the same harness ends the path (the decoder returns on the first read error; CBMC cannot fold the niche-encoded Err discriminant and would otherwise walk the infeasible success continuation)"]
 out = []
-def add(name, props, tier, bound, est=110, unwind=26, extra_enc=None, mem=6):
+def add(name, props, tier, bound, est=110, unwind=26, extra_enc=None, mem=6, features="std", stubs=None):
     out.append('''[[harness]]
 name = "%s"
 file = "decoding/frame_decoder.rs"
 props = %s
 tier = "%s"
-features = "std"
+features = "%s"
 unwind = %d
 est_s = %d
 timeout_s = %d
 mem_gb = %d
+stubs = %s
 encodes = %s
 bound = "%s"
 assumes = %s
-''' % (name, str(props).replace("'", '"'), tier, unwind, est, max(600, est * 4), mem,
+''' % (name, str(props).replace("'", '"'), tier, features, unwind, est, max(600, est * 4), mem, str(stubs or []).replace("'", '"'),
        str(ENC_FD + (extra_enc or [])).replace("'", '"'), bound, str(ASSUME).replace("'", '"')))
 
 complete = [
@@ -47,11 +49,11 @@ cuts_quick = ["05_all", "06_all", "08_all", "09_obo", "10_obo", "10_all", "12_ob
 cuts_thorough = ["00_all", "03_all", "04_all", "07_obo", "11_all", "16_all", "16_obo", "18_obo"]
 for c in cuts_quick + cuts_thorough:
     cut, sched = c.split("_")
-    add("fd_cut_rle3raw2ck_" + c, ["C10", "C03"], "quick" if c in cuts_quick else "thorough",
+    add("fd_cut_rle3raw2ck_" + c, ["C10", "C03"] if c in ("06_all", "09_obo", "13_all", "17_obo") else ["C10"], "quick" if c in cuts_quick else "thorough",
         "skeleton RLE(3)+raw(2)+checksum (19 bytes) cut after %d bytes, schedule %s; every payload byte symbolic" % (int(cut), "one block per call, read after each" if sched == "obo" else "All"))
 for c, t in (("11_all", "quick"), ("13_obo", "quick"), ("14_obo", "thorough")):
     cut, sched = c.split("_")
-    add("fd_cut_raw2raw0_" + c, ["C10", "C03"], t,
+    add("fd_cut_raw2raw0_" + c, ["C10"], t,
         "skeleton raw(2)+empty last block (14 bytes) cut after %d bytes, schedule %s" % (int(cut), "one block per call" if sched == "obo" else "All"))
 
 progs = [
@@ -88,7 +90,7 @@ reuse = [
  ("fd_reuse_smaller_window", "A = window 1 KiB left undrained; B = lying window 2 (3 blocks)", "quick"),
 ]
 for n, d, t in reuse:
-    add(n, ["C07", "C03"], t, "history: %s; every payload byte of both frames symbolic; B's bytes, consumed count, finished flag, checksum accessors checked against B's own values" % d, est=200)
+    add(n, ["C07", "C03"] if n in ("fd_reuse_truncated_block", "fd_reuse_truncated_header") else ["C07"], t, "history: %s; every payload byte of both frames symbolic; B's bytes, consumed count, finished flag, checksum accessors checked against B's own values" % d, est=200)
 
 open(os.path.join(HERE, "registry_fd.toml"), "w").write("# generated by gen_registry_fd.py - do not edit\n\n" + "\n".join(out))
 print(len(out), "harnesses")
